@@ -211,6 +211,10 @@ class GrammarModel:
                 continue
         return out
 
+    def min_count(self, label, child_label):
+        """Least number of `child_label` children a `label` tree has, over every expansion that constructs it."""
+        return min(sum(el["min"] for el in exp["seq"] if el["items"] == frozenset({child_label})) for exp in self.children_of(label))
+
     # -- finite terminals -----------------------------------------------------------------
     def terminal_regex(self, name):
         t = self.terminals.get(name)
